@@ -69,7 +69,8 @@ UNITS_BY_DIM: dict[tuple[str, ...], list[str]] = {}
 for _n, (_f, _d, _x) in MU.TABLE.items():
     UNITS_BY_DIM.setdefault(_dj(_d), []).append(_n)
 
-_POS_RATS = ["1", "2", "3", "5", "7", "12", "1/2", "3/2", "2/3", "5/4", "7/10", "1/10", "100"]
+# the last two are exact, finite, non-zero magnitudes outside the range of a double (10**400 and its reciprocal)
+_POS_RATS = ["1", "2", "3", "5", "7", "12", "1/2", "3/2", "2/3", "5/4", "7/10", "1/10", "100", "1" + "0" * 400, "1/1" + "0" * 400]
 _FLOATS = ["0.5", "1.5", "2.25", "0.125", "3.0", "10.0", "0.1", "2.3", "1000.0", "4.4e4", "5e-3", "1.1", "1.6e-19", "6.0e23", "9.1e-31"]
 _EXPONENTS = ["2", "2", "3", "-1", "-1", "-2", "1/2", "1/2", "3/2", "-1/2", "1/3", "0"]
 _PREFIX_NAMES = list(MU.PREFIXES)
